@@ -354,7 +354,8 @@ class Tracker:
                     scoring_method(f, x.feature)
                     for x in candidates_feature_dict[track_id]
                 ]
-                oks = scoring_reduction(oks)  # scoring reduction
+                # a track with no candidate left in the window has no score (NaN)
+                oks = scoring_reduction(oks) if len(oks) > 0 else np.nan
                 scores[f_idx][track_id] = oks
 
         return scores
@@ -388,7 +389,11 @@ class Tracker:
 
         matching_method = self._track_matching_methods[self.track_matching_method]
 
-        row_inds, col_inds = matching_method(cost_matrix)
+        # match only against tracks that still have a candidate (a finite cost)
+        # in the window; stale tracks cannot be matched, only re-created.
+        valid_cols = np.flatnonzero(np.isfinite(cost_matrix).any(axis=0))
+        row_inds, col_inds = matching_method(cost_matrix[:, valid_cols])
+        col_inds = valid_cols[np.asarray(col_inds, dtype=int)]
         tracking_scores = [
             -cost_matrix[row, col] for row, col in zip(row_inds, col_inds)
         ]
